@@ -20,9 +20,9 @@
    (record bodies are abstract), only lengths, offsets, orders and verdicts. *)
 From V Require Export Base.Hex Crash.Storage Crash.Protocol Crash.ToyHash.
 
-(* which code the model is compared with: false = store.sync() does not fsync the hash tree (the
-   code as it is); true = the proposed repair fixes/C03-aht-stale-committed-leaf.diff is applied *)
-Definition repair_applied : bool := false.
+(* which code the model is compared with: true = store.sync() fsyncs the hash tree after the tx log and
+   before the commit entries are appended (the code since fix b260503); false = the code before it *)
+Definition repair_applied : bool := true.
 
 (* what was observed after an operation *)
 Inductive obs :=
